@@ -1486,6 +1486,96 @@ def dataset_check(run, rng):
 
 
 # --------------------------------------------------------------------------
+# an attached filter changed in place by an amount that is tiny relative to
+# the coordinates, or in one vertex of a >1000-vertex polygon
+# --------------------------------------------------------------------------
+def gen_inplace_case(rng, big=False):
+    if big:
+        n = rng.choice([1200, 1500, 2500])
+        sc = 10.0 ** rng.randint(-2, 3)
+        poly = [[sc * math.cos(2 * math.pi * k / n), sc * math.sin(2 * math.pi * k / n)]
+                for k in range(n)]
+        i = n // 2 + rng.randint(-5, 5)
+        new = [1.5 * poly[i][0], 1.5 * poly[i][1]]
+        pts = [[1.3 * poly[i][0], 1.3 * poly[i][1]], [0.0, 0.0], [2 * sc, 2 * sc],
+               [0.5 * poly[i][0], 0.5 * poly[i][1]], [1.2 * poly[i][0], 1.2 * poly[i][1]]]
+        return dict(kind="dataset-inplace", poly=poly, moves=[[i, new]], pts=pts,
+                    inv=rng.choice([0, 1]))
+    M = rng.choice([-1, 1]) * rng.uniform(1, 9.99) * 10.0 ** rng.randint(2, 9)
+    W = abs(M) * 10.0 ** rng.randint(-4, -1)
+    X = M + W
+    d = abs(M) * 10.0 ** -rng.choice([9, 10, 11, 12]) * rng.choice([-1, 1])
+    poly = [[M, 0.0], [M, 1.0], [X, 1.0], [X, 0.0]]
+    k = rng.randrange(4)
+    poly = poly[k:] + poly[:k]
+    idx = [i for i, v in enumerate(poly) if v[0] == X]
+    both = rng.random() < .5
+    moves = [[i, [X + d, poly[i][1]]] for i in (idx if both else idx[:1])]
+    ymove = poly[idx[0]][1]
+    ypl = 0.5 if both else (0.9 if ymove == 1.0 else 0.1)
+    pts = [[X + 0.5 * d, ypl], [X - abs(d) * 3, 0.5], [X + abs(d) * 3, 0.5], [M + W / 2, 0.5],
+           [X + 0.25 * d, ypl], [M - W, 0.25]]
+    return dict(kind="dataset-inplace", poly=poly, moves=moves, pts=pts, inv=rng.choice([0, 1]))
+
+
+def check_inplace_case(case, rng):
+    import warnings
+    import numpy as np
+    import dclab
+    from dclab.polygon_filter import PolygonFilter
+    PolygonFilter.clear_all_filters()
+    try:
+        pts = [[float(a), float(b)] for a, b in case["pts"]]
+        inv = case["inv"]
+        x = np.array([p[0] for p in pts])
+        y = np.array([p[1] for p in pts])
+
+        def bad(mask, poly, what):
+            judge = exact_judgement(poly, pts, rng)
+            for k, (j, b) in enumerate(zip(judge, mask)):
+                if not (j["bnd"] or j["near"]) and bool(b) != bool(j["inside"] ^ inv):
+                    return "%s: event %r has polygon filter value %s, should be %s" % (
+                        what, pts[k], bool(b), bool(j["inside"] ^ inv))
+            return None
+        with warnings.catch_warnings():
+            warnings.simplefilter("ignore")
+            ds = dclab.new_dataset({"area_um": x, "deform": y})
+            A = PolygonFilter(axes=("area_um", "deform"), points=np.array(case["poly"], dtype=float),
+                              inverted=bool(inv))
+            ds.polygon_filter_add(A)
+            ds.apply_filter()
+            fail = bad(ds.filter.polygon, [list(map(float, v)) for v in A.points], "before the change")
+            if fail is None:
+                if not isinstance(getattr(A, "_points", None), np.ndarray):
+                    A.points = np.array(A.points, dtype=float)
+                for i, new in case["moves"]:
+                    A._points[i, 0] = new[0]      # in place, no new array object
+                    A._points[i, 1] = new[1]
+                ds.apply_filter()
+                fail = bad(ds.filter.polygon, [list(map(float, v)) for v in A.points],
+                           "after %d vertex/vertices of the attached %d-vertex filter moved in place "
+                           "(e.g. vertex %d -> %r) and apply_filter()" % (
+                               len(case["moves"]), len(case["poly"]), case["moves"][0][0],
+                               case["moves"][0][1]))
+        return fail
+    finally:
+        PolygonFilter.clear_all_filters()
+
+
+def inplace_check(run, rng):
+    corpus = [c for c in load_corpus() if c.get("kind") == "dataset-inplace"]
+    cases = corpus + [gen_inplace_case(rng) for _ in range(30 if run.thorough else 5)] + \
+        [gen_inplace_case(rng, big=True) for _ in range(4 if run.thorough else 1)]
+    for c in cases:
+        fail = check_inplace_case(c, rng)
+        small = dict(c, poly=c["poly"] if len(c["poly"]) <= 40 else c["poly"])
+        run.record_case(small, True, sample=False)
+        run.count("dataset-inplace:%s" % (">1000-vertices" if len(c["poly"]) > 1000 else "tiny-move"))
+        if fail is not None:
+            run.oracle_failure(c, fail, None)
+
+
+# --------------------------------------------------------------------------
 # the printed coordinates, read by the model's exact decimal parser
 # --------------------------------------------------------------------------
 def sci_token_check(run, rng):
@@ -1776,7 +1866,7 @@ def run(run):
 
 
     # ---------------- long arrays, non-finite values, dataset level, printed numbers
-    for stage in (bulk_check, dataset_check):
+    for stage in (bulk_check, dataset_check, inplace_check):
         try:
             stage(run, rng)
         except AssertionError:
@@ -1941,6 +2031,13 @@ def replay(payload):
         return 0
     scratch = tempfile.mkdtemp(prefix="verif-c15-replay-", dir=os.environ.get("VERIF_SCRATCH", "/var/tmp"))
     try:
+        if case["kind"] == "dataset-inplace":
+            fail = check_inplace_case(case, random.Random(0))
+            if fail:
+                print("FAILS:", fail)
+                return 1
+            print("passes on the current tree")
+            return 0
         if case["kind"] == "dtype":
             fail, _nt = check_dtype_impl(case, scratch, random.Random(0))
             if fail:
